@@ -128,7 +128,7 @@ class Contract:
     def __init__(self, target, props=(), params=None, returns=None, requires=None, ensures=None,
                  raises=None, modifies=None, loops=None, decreases=None, local_types=None,
                  lemmas=None, pure=False, notes='', ret_fresh=False, may_return=True,
-                 verify=True, trusted=False, ghost_post=None):
+                 verify=True, trusted=False, ghost_post=None, variant=None):
         self.target = target
         self.props = list(props)
         self.params = params or {}
@@ -148,18 +148,20 @@ class Contract:
         self.verify = verify
         self.trusted = trusted             # contract assumed, body not verified (listed in evidence)
         self.ghost_post = ghost_post
+        self.variant = variant
 
 
 class ExcSpec:
     """Exceptional outcome: class name, `when` (condition over the pre-state under which a caller
     must expect it; None = any time), `ensures` (exceptional postcondition)."""
 
-    def __init__(self, cls, when=None, ensures=None, props=(), exact=True):
+    def __init__(self, cls, when=None, ensures=None, props=(), exact=True, modifies=None):
         self.cls = cls
         self.when = when
         self.ensures = ensures or (lambda c: [])
         self.props = list(props)
         self.exact = exact
+        self.modifies = modifies      # frame of this outcome (None: the contract's modifies)
 
 
 class LoopSpec:
@@ -187,6 +189,7 @@ class Engine:
         self.feas = z3.Solver()
         self.feas.set('timeout', 1500)
         self.loop_ordinals = {}
+        self.inline_class_stack = []
         self.stats = {'paths': 0, 'feas_checks': 0, 'inlined': set(), 'callee_contracts': set()}
         self.entry_state = None
 
@@ -241,8 +244,18 @@ class Engine:
     def gwrite(self, st, name, val):
         st.g[name] = val
 
+    def check_lock(self, st, field, node):
+        """lockset obligation: a guarded field is written only with its lock held"""
+        guards = getattr(self.cur_contract, 'lock_guards', None) or {}
+        lock = guards.get(field)
+        if lock is not None:
+            self.oblige(st, z3.BoolVal(lock in st.locks), 'lockset',
+                        '%s@L%s' % (field, getattr(node, 'lineno', '?')),
+                        line=getattr(node, 'lineno', None))
+
     def resolve_field(self, cls, attr):
         """Find 'Owner.attr' for an object of static class `cls` (search up, then down)."""
+        cls = cls.rstrip('?')
         c = cls
         while c is not None:
             if c + '.' + attr in self.fields:
@@ -260,12 +273,36 @@ class Engine:
     # ------------------------------------------------------------------------------------------
     # feasibility
 
+    _quant_cache = {}
+
+    def quantifier_free(self, f):
+        k = f.get_id()
+        r = self._quant_cache.get(k)
+        if r is None:
+            r = True
+            stack = [f]
+            seen = set()
+            while stack:
+                x = stack.pop()
+                if x.get_id() in seen:
+                    continue
+                seen.add(x.get_id())
+                if z3.is_quantifier(x):
+                    r = False
+                    break
+                stack.extend(x.children())
+            self._quant_cache[k] = r
+        return r
+
     def feasible(self, st, extra=None):
+        """path pruning: only the quantifier-free part of the path condition is used (dropping
+        conjuncts can only keep more paths, which is sound)"""
         self.stats['feas_checks'] += 1
         self.feas.push()
         try:
             for f in st.pc:
-                self.feas.add(f)
+                if self.quantifier_free(f):
+                    self.feas.add(f)
             if extra is not None:
                 self.feas.add(extra)
             r = self.feas.check()
@@ -278,7 +315,8 @@ class Engine:
         self.feas.push()
         try:
             for g in st.pc:
-                self.feas.add(g)
+                if self.quantifier_free(g):
+                    self.feas.add(g)
             self.feas.add(z3.Not(f))
             r = self.feas.check()
         finally:
@@ -352,6 +390,8 @@ class Engine:
         if isinstance(goal, bool):
             goal = z3.BoolVal(goal)
         fn = self.prog.short(self.cur.qualname)
+        if getattr(self, 'variant', None):
+            fn = fn + '#' + self.variant
         name = '%s/%s.%s#%d' % (fn, kind, label, len(self.obls))
         self.obls.append(Obl(name, props if props is not None else self.cur_contract.props,
                              st.pc, goal, kind, fn, label, '.'.join(st.trace), line, extra))
@@ -500,6 +540,7 @@ class Engine:
             raise Unsupported('unknown field %s.%s' % (obj.ty.cls, attr))
         fty = self.fields[field]
         self.hwrite(st, field, obj.t, self.to_field(v, fty))
+        self.check_lock(st, field, node)
         self.intr.on_field_write(self, st, field, obj, v, node)
         return [(st, 'ok', None)]
 
@@ -508,6 +549,11 @@ class Engine:
         if isinstance(v, Sym):
             if v.ty == fty or v.ty.sort() == fty.sort():
                 return v.t
+            if v.ty.kind == 'pyv' and fty.kind == 'str':
+                from spec import json_spec as J
+                return PyV.ps(J.base_of(v.t))       # a str (checked by isinstance before)
+            if fty.kind == 'pyv':
+                return self.intr.to_pyv(v)
             if fty.kind == 'opt' and v.ty.sort() == fty.args[0].sort():
                 return fty.sort().some(v.t)
             raise Unsupported('field type mismatch %r vs %r' % (v.ty, fty))
@@ -545,6 +591,28 @@ class Engine:
 
     def from_field(self, t, fty, obj=None, field=None):
         return Sym(t, fty, fresh=False, origin=(obj, field))
+
+    def assume_alloc(self, st, v):
+        """objects reachable from parameters and fields are allocated (heap well-formedness)"""
+        if 'alloc' not in self.GHOST_SORTS or not isinstance(v, Sym):
+            return
+        al = self.gread(st, 'alloc')
+        if v.ty.kind == 'obj':
+            st.assume(z3.Select(al, v.t))
+            if v.ty.cls.endswith('?'):
+                pass
+            elif v.ty.cls in CLS:
+                st.assume(cls_of(v.t) == CLS[v.ty.cls])
+            elif v.ty.cls in ('Operation', 'ComplexOperation'):
+                st.assume(cls_isinstance(v.t, v.ty.cls))
+        elif v.ty.kind == 'opt' and v.ty.args[0].kind == 'obj':
+            srt = v.ty.sort()
+            inner = v.ty.args[0]
+            st.assume(z3.Implies(srt.is_some(v.t), z3.Select(al, srt.val(v.t))))
+            if inner.cls in CLS:
+                st.assume(z3.Implies(srt.is_some(v.t), cls_of(srt.val(v.t)) == CLS[inner.cls]))
+            elif inner.cls in ('Operation', 'ComplexOperation'):
+                st.assume(z3.Implies(srt.is_some(v.t), cls_isinstance(srt.val(v.t), inner.cls)))
 
     def unwrap_opt(self, st, v):
         return Sym(v.ty.sort().val(v.t), v.ty.args[0])
@@ -1098,12 +1166,15 @@ class Engine:
                     for (s1, ok) in self.branch(st, cls_isinstance(v.t, owner),
                                                 'A%d' % node.lineno):
                         if ok:
-                            outs.append((s1, self.from_field(self.hread(s1, field, v.t), fty,
-                                                             v.t, field)))
+                            fv = self.from_field(self.hread(s1, field, v.t), fty, v.t, field)
+                            self.assume_alloc(s1, fv)
+                            outs.append((s1, fv))
                         else:
                             outs.append((s1, Raise(new_exc('AttributeError'))))
                     return outs
-                return [(st, self.from_field(self.hread(st, field, v.t), fty, v.t, field))]
+                fv = self.from_field(self.hread(st, field, v.t), fty, v.t, field)
+                self.assume_alloc(st, fv)
+                return [(st, fv)]
             fi = self.prog.find_method(v.ty.cls, attr)
             if fi is not None:
                 return [(st, FuncV(fi.qualname, v))]
@@ -1177,14 +1248,15 @@ class Engine:
         if isinstance(f, ClassV):
             return self.intr.construct(self, st, f, pos, kws, node)
         if isinstance(f, FuncV):
+            star_sym = None
             if starv is not None:
                 if isinstance(starv, (ListV, TupleV)):
                     pos = pos + list(starv.items)
                 else:
-                    raise Unsupported('star call of repo function with symbolic list')
+                    star_sym = starv
             if f.self_val is not None:
                 pos = [f.self_val] + pos
-            return self.call_repo(st, f.qualname, pos, kws, node, dstarv)
+            return self.call_repo(st, f.qualname, pos, kws, node, dstarv, star_sym)
         if isinstance(f, LambdaV):
             raise Unsupported('call of lambda')
         raise Unsupported('call of %r' % (f,))
@@ -1212,12 +1284,16 @@ class Engine:
                 raise Unsupported('missing argument %s of %s' % (p, fi.qualname))
         return args
 
-    def call_repo(self, st, qualname, pos, kws, node, dstarv=None):
+    def call_repo(self, st, qualname, pos, kws, node, dstarv=None, star_sym=None):
         fi = self.prog.funcs.get(qualname)
         if fi is None:
             raise Unsupported('unknown function ' + qualname)
         con = self.reg.get(qualname)
         args = self.bind_params(fi, pos, kws)
+        if star_sym is not None:
+            if fi.vararg is None or len(pos) != len(fi.params):
+                raise Unsupported('star call of %s with a symbolic sequence' % qualname)
+            args[fi.vararg] = star_sym
         for k, v in list(args.items()):
             if isinstance(v, tuple) and v and v[0] == '$default':
                 d = v[1]
@@ -1240,15 +1316,21 @@ class Engine:
         saved_mod, saved_loops = self.cur_module, self.cur_loops
         saved_lt = None
         st.env = dict(args)
+        st.env['$outer'] = saved_env
+        if '$handling' in saved_env:
+            st.env['$handling'] = saved_env['$handling']
         st.depth += 1
         self.cur_module = fi.module
         self.index_loops(fi)
-        self.cur_loops = {}
+        self.cur_loops = getattr(self.cur_contract, 'inlined_loops', {}).get(
+            self.prog.short(fi.qualname), {})
+        self.inline_class_stack.append(fi.cls)
         outs = []
         try:
             res = self.exec_block(fi.body(), st)
         finally:
             self.cur_module, self.cur_loops = saved_mod, saved_loops
+            self.inline_class_stack.pop()
         for (s1, ctrl, v) in res:
             handling = saved_env.get('$handling')
             s1.env = dict(saved_env)
@@ -1268,6 +1350,11 @@ class Engine:
         if isinstance(v, Sym):
             if v.ty.sort() == ty.sort():
                 return Sym(v.t, ty if ty.kind != 'obj' or ty.cls else v.ty, fresh=v.fresh)
+            if v.ty.kind == 'pyv' and ty.kind == 'str':
+                from spec import json_spec as J
+                return Sym(PyV.ps(J.base_of(v.t)), STR)
+            if ty.kind == 'pyv' and v.ty.kind in ('str', 'int', 'bool'):
+                return Sym(self.intr.to_pyv(v), PYV)
             if ty.kind == 'opt' and v.ty.sort() == ty.args[0].sort():
                 return Sym(ty.sort().some(v.t), ty)
             raise Unsupported('argument sort mismatch %r for %r' % (v.ty, ty))
@@ -1285,6 +1372,11 @@ class Engine:
             return Sym(self.intr.listv_to_pyv(v), PYV, fresh=v.fresh)
         if isinstance(v, (CallbackV, TupleV, ArgsV, ExcV)):
             return v
+        from .lib import EmptyDictV, EmptySetV
+        if isinstance(v, (EmptyDictV, EmptySetV)):
+            if ty.kind == 'pyv':
+                return Sym(PyV.PDict(KVs.knil), PYV, fresh=True)
+            return self.intr.empty_of(ty)
         raise Unsupported('cannot pass %r as %r' % (v, ty))
 
     def apply_contract(self, st, fi, con, args, node):
@@ -1316,7 +1408,10 @@ class Engine:
             branches.append(('exc', es))
         for kind, es in branches:
             s1 = st.fork()
-            for m in mods:
+            mods_here = mods
+            if es is not None and es.modifies is not None:
+                mods_here = es.modifies(c0)
+            for m in mods_here:
                 if isinstance(m, str):
                     if m.startswith('g:'):
                         s1.g[m[2:]] = fresh('Gc!' + m[2:], self.GHOST_SORTS[m[2:]])
@@ -1334,6 +1429,14 @@ class Engine:
                                   fresh=con.ret_fresh)
                     else:
                         res = con.returns(self, s1, cargs)    # custom result builder
+                if 'alloc' in self.GHOST_SORTS:
+                    # the callee may allocate: the allocated set grows, results are allocated
+                    a1 = self.gread(s1, 'alloc')
+                    a2 = fresh('Gc!alloc', a1.sort())
+                    qo = z3.Const('qx!alc', ObjS)
+                    s1.assume(z3.ForAll([qo], z3.Implies(a1[qo], a2[qo])))
+                    self.gwrite(s1, 'alloc', a2)
+                    self.assume_alloc(s1, res)
                 c1 = Ctx(self, pre, s1, cargs, res=(res.t if isinstance(res, Sym) else res),
                          entry=pre)
                 # when the exact exceptional guards are known the normal outcome excludes them
@@ -1373,11 +1476,12 @@ class Engine:
             self.loop_ordinals[id(x)] = i
         return len(loops)
 
-    def verify(self, qualname):
+    def verify(self, qualname, con=None):
         fi = self.prog.funcs[qualname]
-        con = self.reg[qualname]
+        con = con or self.reg[qualname]
         self.cur = fi
         self.cur_contract = con
+        self.inline_class_stack = [fi.cls]
         self.cur_module = fi.module
         self.cur_loops = con.loops
         self.unverified_termination = set()
@@ -1398,6 +1502,9 @@ class Engine:
             args[fi.kwarg] = con.params.get(fi.kwarg)
         self.cur_args = args
         st.env = dict(args)
+        if 'alloc' in self.GHOST_SORTS:
+            for p_, v_ in args.items():
+                self.assume_alloc(st, v_)
         self.intr.init_state(self, st, con)
         entry = st.fork()
         self.entry_state = entry
@@ -1409,13 +1516,41 @@ class Engine:
         self.cover = self.feasible(st)
         outcomes = self.exec_block(fi.body(), st)
         self.stats['paths'] += len(outcomes)
+        def frame_obligations(s1, mods, tag=''):
+            mod_fields_all = set(m for m in mods if isinstance(m, str) and not m.startswith('g:'))
+            mod_ghost = set(m[2:] for m in mods if isinstance(m, str) and m.startswith('g:'))
+            mod_objs = {}
+            for m in mods:
+                if not isinstance(m, str):
+                    mod_objs.setdefault(m[0], []).append(m[1])
+            for field in list(s1.heap.keys()):
+                if field in mod_fields_all:
+                    continue
+                base1, writes1 = s1.heap[field]
+                base0, writes0 = self.hfield(entry, field)
+                allowed = mod_objs.get(field, [])
+                if not base1.eq(base0):
+                    self.oblige(s1, base1 == base0, 'frame', tag + field + '.all-objects')
+                seen_o = []
+                for (o, v) in writes1:
+                    if any(o.eq(a) for a in allowed) or any(o.eq(x) for x in seen_o):
+                        continue
+                    seen_o.append(o)
+                    cur, ent = self.hread(s1, field, o), self.hread(entry, field, o)
+                    if cur.eq(ent):
+                        continue
+                    notallowed = z3.And([o != a for a in allowed]) if allowed else z3.BoolVal(True)
+                    if 'alloc' in self.GHOST_SORTS:
+                        # frames speak about objects that existed at entry
+                        notallowed = z3.And(notallowed, z3.Select(self.gread(entry, 'alloc'), o))
+                    self.oblige(s1, z3.Implies(notallowed, cur == ent), 'frame', tag + field)
+            for gname in list(s1.g.keys()):
+                if gname in mod_ghost or gname == 'alloc':
+                    continue
+                g0 = self.gread(entry, gname)
+                if not g0.eq(s1.g[gname]):
+                    self.oblige(s1, s1.g[gname] == g0, 'frame', tag + 'g:' + gname)
         mods = con.modifies(c0)
-        mod_fields_all = set(m for m in mods if isinstance(m, str) and not m.startswith('g:'))
-        mod_ghost = set(m[2:] for m in mods if isinstance(m, str) and m.startswith('g:'))
-        mod_objs = {}
-        for m in mods:
-            if not isinstance(m, str):
-                mod_objs.setdefault(m[0], []).append(m[1])
         for (s1, ctrl, v) in outcomes:
             if ctrl in ('ok', 'ret'):
                 if not con.may_return:
@@ -1432,6 +1567,7 @@ class Engine:
                     label, f = item[0], item[1]
                     props = item[2] if len(item) > 2 else None
                     self.oblige(s1, f, 'post', label, props=props)
+                frame_obligations(s1, mods)
                 if con.ret_fresh:
                     # ownership: the returned value shares no mutable structure with anything that
                     # existed before the call (provenance flag, or provably an immutable atom)
@@ -1460,34 +1596,10 @@ class Engine:
                         label, f = item[0], item[1]
                         props = item[2] if len(item) > 2 else (es.props or None)
                         self.oblige(s2, f, 'exc-post', '%s.%s' % (es.cls, label), props=props)
+                    frame_obligations(s2, es.modifies(c0) if es.modifies is not None else mods,
+                                      'exc.%s.' % es.cls)
             else:
                 raise Unsupported('loop control escaping function')
-            # frame: every object written on this path, other than those the contract lists,
-            # has its entry value; a wholesale havoc of a field is allowed only if listed
-            for field in list(s1.heap.keys()):
-                if field in mod_fields_all:
-                    continue
-                base1, writes1 = s1.heap[field]
-                base0, writes0 = self.hfield(entry, field)
-                allowed = mod_objs.get(field, [])
-                if not base1.eq(base0):
-                    self.oblige(s1, base1 == base0, 'frame', field + '.all-objects')
-                seen_o = []
-                for (o, v) in writes1:
-                    if any(o.eq(a) for a in allowed) or any(o.eq(x) for x in seen_o):
-                        continue
-                    seen_o.append(o)
-                    cur, ent = self.hread(s1, field, o), self.hread(entry, field, o)
-                    if cur.eq(ent):
-                        continue
-                    notallowed = z3.And([o != a for a in allowed]) if allowed else z3.BoolVal(True)
-                    self.oblige(s1, z3.Implies(notallowed, cur == ent), 'frame', field)
-            for gname in list(s1.g.keys()):
-                if gname in mod_ghost:
-                    continue
-                g0 = self.gread(entry, gname)
-                if not g0.eq(s1.g[gname]):
-                    self.oblige(s1, s1.g[gname] == g0, 'frame', 'g:' + gname)
         return self.obls
 
     def result_term(self, res, con, st):
